@@ -24,6 +24,8 @@ pub enum Stop {
     Target(usize),
     /// `next_state` panics at this state
     PanicAt(u32),
+    /// any finish condition (used by C12's schedule-owned early-stop check)
+    FinishWhen(Finish),
 }
 
 #[derive(Clone, Debug, Serialize, Deserialize, PartialEq, Eq, Hash)]
@@ -75,6 +77,7 @@ pub fn run_scheduled(c: &SchedCase, join_wait: Duration) -> SchedOut {
     let mut cfg = RunCfg::plain(c.strat, c.threads);
     match c.stop {
         Stop::FinishAny => cfg.finish = Some(Finish::Any),
+        Stop::FinishWhen(ref f) => cfg.finish = Some(f.clone()),
         Stop::Target(t) => cfg.target_state_count = Some(t),
         _ => {}
     }
@@ -247,7 +250,7 @@ pub fn check_scheduled(c: &SchedCase, cov: &mut Cov) -> Result<(), Fail> {
     cov.label(c.strat.label());
     cov.label(match c.stop {
         Stop::Exhaust => "stop_exhaustion",
-        Stop::FinishAny => "stop_finish_condition",
+        Stop::FinishAny | Stop::FinishWhen(_) => "stop_finish_condition",
         Stop::Target(_) => "stop_target",
         Stop::PanicAt(_) => "stop_panic",
     });
@@ -425,6 +428,35 @@ impl SubCheck for RealThreads {
     }
 }
 
+/// Stop reason "timeout" with workers idle in the job market at expiry (real time, child
+/// processes with a hard kill: the scenario of C12(d) on the endless chain). The timeout closes the
+/// market without a notification, so every idle worker depends on the running one to be woken.
+pub struct TimeoutWithIdleWorkers;
+impl SubCheck for TimeoutWithIdleWorkers {
+    type Case = crate::props::c12d::TimeoutCase;
+    fn name(&self) -> &'static str {
+        "timeout_stops_idle_workers_too"
+    }
+    fn cases(&self, tier: Tier) -> u32 {
+        tier.pick(4, 24)
+    }
+    fn workers(&self) -> usize {
+        4
+    }
+    fn max_shrink_iters(&self) -> u32 {
+        0
+    }
+    fn strategy(&self, tier: Tier) -> BoxedStrategy<Self::Case> {
+        crate::props::c12d::IdleWorkersAtExpiry.strategy(tier)
+    }
+    fn check(&self, c: &Self::Case, cov: &mut Cov) -> Result<(), Fail> {
+        crate::props::c12d::Timeouts.check(c, cov).map_err(|f| Fail::new(f.sig.replacen("c12/", "c05/", 1), f.detail))
+    }
+    fn mandatory(&self) -> Vec<&'static str> {
+        vec!["expiring/idle_workers_at_expiry"]
+    }
+}
+
 // ---------------------------------------------------------------------------------------------
 // Broker facade programs (hook H4)
 // ---------------------------------------------------------------------------------------------
@@ -591,6 +623,6 @@ pub fn spec() -> PropSpec {
             "interleavings inside DashMap operations and of relaxed atomics are atomic at the scheduler's granularity and only sampled by the real-thread runs",
             "no spurious condvar wake-ups are injected (parking_lot documents none)",
         ],
-        subs: vec![Box::new(Scheduled), Box::new(RacingJoins), Box::new(BrokerPrograms), Box::new(RealThreads)],
+        subs: vec![Box::new(Scheduled), Box::new(RacingJoins), Box::new(BrokerPrograms), Box::new(RealThreads), Box::new(TimeoutWithIdleWorkers)],
     }
 }
